@@ -70,6 +70,7 @@ def replay(ctx, behaviours, params, trace_cfg, chunk=200):
   st["tlc_accepted"] = 0
   pending = []
   for sig, rep in col.mism:
+    rep = dict(rep, params=dict(rep.get("params") or {}, arbiter=trace_cfg))
     obs = rep["observed"]
     if not isinstance(obs, dict) or "EXC" in obs or set(obs) != set(rep["expected"]):
       report(ctx, sig, rep)         # an exception / malformed observation
